@@ -36,9 +36,10 @@ static void procs_run(const plan *p)
 }
 
 /* ---------------------------------------------------------------- single-fault sweep */
-typedef struct { int victim, stepk; int64_t delay, prio; int kind; int64_t arg; } placement;
-#define MAXPLACE 700
-static placement PL[MAXPLACE * 4];
+typedef struct { int victim, stepk; int64_t delay, prio; int kind; int64_t arg;
+                 int kind2; int64_t prio2, arg2; } placement;      /* kind2 != 0: a second fault on the same call in the same instant */
+#define MAXPLACE 1200
+static placement PL[MAXPLACE * 8];
 static int npl;
 static uint64_t pl_seed; static bool pl_valid; static plan pl_base; static char pl_cfg[128];
 
@@ -77,10 +78,22 @@ static void enumerate(uint64_t seed, const char *cfg)
             const double d4 = (inst[i] - c->t0) * 4.0;
             if (!(d4 >= 0.0 && d4 < 999.0) || d4 != (double)(int64_t)d4) continue;
             for (int k = 0; k < nk; k++) for (int sgn = -1; sgn <= 1; sgn += 2) {
-                if (npl >= MAXPLACE * 4) break;
+                if (npl >= MAXPLACE * 8) break;
                 placement *q = &PL[npl++];
+                memset(q, 0, sizeof *q);
                 q->victim = c->pid; q->stepk = c->stepk; q->delay = (int64_t)d4; q->prio = vp + sgn; q->kind = kinds[k];
                 q->arg = (kinds[k] == 1) ? vp + sgn : (kinds[k] == 6) ? vp + 1 : 0;
+            }
+            /* coincidences: two different causes for the same call in the same instant, in both orders
+             * (the first one gets the higher event priority); on the call instant and on the return instant only */
+            if (i == 0 || i == ni - 1) for (int k1 = 0; k1 < nk; k1++) for (int k2 = 0; k2 < nk; k2++) {
+                if (k1 == k2 || npl >= MAXPLACE * 8) continue;
+                if (kinds[k1] == 6 && kinds[k2] == 6) continue;
+                placement *q = &PL[npl++];
+                memset(q, 0, sizeof *q);
+                q->victim = c->pid; q->stepk = c->stepk; q->delay = (int64_t)d4;
+                q->kind = kinds[k1]; q->prio = vp + 2; q->arg = (kinds[k1] == 1) ? vp + 2 : (kinds[k1] == 6) ? vp + 1 : 0;
+                q->kind2 = kinds[k2]; q->prio2 = vp + 1; q->arg2 = (kinds[k2] == 1) ? vp + 1 : (kinds[k2] == 6) ? vp - 1 : 0;
             }
         }
     }
@@ -99,6 +112,7 @@ static int procs_sweep(uint64_t seed, const char *cfg, int pick, plan *out)
     if (pick > 0) {
         const placement *q = &PL[(pick - 1) * stride < npl ? (pick - 1) * stride : npl - 1];
         plan_add(out, "F", 6, (int64_t)q->victim, (int64_t)q->stepk, q->delay, q->prio, (int64_t)q->kind, q->arg);
+        if (q->kind2) plan_add(out, "F", 6, (int64_t)q->victim, (int64_t)q->stepk, q->delay, q->prio2, (int64_t)q->kind2, q->arg2);
     }
     return n;
 }
